@@ -7,7 +7,8 @@ EXPLANATION = 'Mixed. P: writer.write_multi, find_max_part and api.part_ids exec
 def p_parts():
     from ._parts import p_parts as p_partnames
     from ._edits import p_edits
-    return [p_partnames, p_edits]
+    from ._generic import optional_parts
+    return [p_partnames, p_edits] + optional_parts(("_partfiles", "p_partfiles"))
 
 
 def run(ctx):
